@@ -2,6 +2,7 @@
 import copy
 from common import *
 import gen
+from algos import give_a_past, random_past
 from snap import *
 from corankco.dataset import Dataset
 from corankco.ranking import Ranking
@@ -95,11 +96,25 @@ class Eq(Suite):
             if not any(B):
                 B = [[[names[0]]]]
             cases.append({"A": A, "B": B, "kind": kind})
+        # datasets with a past: already compared (and read in every way), then modified in place; what is judged is == on the datasets
+        # as they are afterwards (their rankings are observed after the modification)
+        for c in [dict(c) for c in rng.sample(cases, 80 if tier == "quick" else 800)]:
+            c["pastA"] = random_past(rng, c["A"])
+            if rng.random() < 0.5:
+                c["pastB"] = c["pastA"] if rng.random() < 0.6 else random_past(rng, c["B"])
+            c["kind"] = c["kind"] + "+past"
+            cases.append(c)
         return cases
 
     def run(self, case):
         a = build(case["A"], "left")
         b = build(case["B"], "right name")
+        if case.get("pastA") or case.get("pastB"):
+            a == b, b == a          # compared once before anything changes
+        if case.get("pastA"):
+            give_a_past(a, case["pastA"])
+        if case.get("pastB"):
+            give_a_past(b, case["pastB"])
         return {"a": [listing(r) for r in a.rankings], "b": [listing(r) for r in b.rankings],
                 "ab": bool(a == b), "ba": bool(b == a), "aa": bool(a == copy.deepcopy(a)), "ne": bool(a != b)}
 
